@@ -35,11 +35,15 @@ structure DNode where
   needStart : Bool
   out : List Action
 
-/-- Events `listen` selects on (everything except `ProcessStart`, which only the loop head calls,
-and `ProcessWAL`, which only `replay` calls). -/
+/-- Events `listen` selects on that this model covers: timeouts and gossiped proposals / prevotes /
+precommits. Excluded: `ProcessStart` (only the loop head calls it), `ProcessWAL` (only `replay`), and
+the block-sync branch: juno's `ProcessSync` input is fabricated by `consensus/sync.MessageExtractor`
+(a proposal nobody broadcast plus one precommit of a pseudo-sender that holds quorum power); it is
+not `Deliverable`, and trusting it is an assumption outside these theorems (see notes, finding 4). -/
 def IsEvent : Input → Prop
   | .start _ => False
   | .wal _ => False
+  | .sync _ _ => False
   | _ => True
 
 structure NetEnv where
